@@ -23,7 +23,7 @@ OPS = {
 
 def run(tier, seed):
     chk = Check(PROP, tier, seed)
-    chk.rule = ("all ordered pairs of the 64-value universe of MC_Values x 10 operators; distinct = (x, y, op); "
+    chk.rule = ("all ordered pairs of the value universe of MC_Values x 10 operators, array pairs also built from a shared prefix; distinct = source text; "
                 "non-trivial = the pair is not two primitives of different type")
     chk.assumptions = ["rendering of specification values as Jsonnet literals (lib/render.py)"]
     vlib.build_harness()
@@ -49,6 +49,24 @@ def run(tier, seed):
                 src = f"local x = {xs}, y = {ys}; {tmpl}"
                 cases.append({"k": "eval", "src": src, "manifest": "single"})
                 meta.append((c, op))
+        # the same two arrays built from a SHARED prefix (the element thunks of the common part are
+        # the same objects in both operands): the value, hence every expected result, is unchanged
+        if c["x"]["t"] == "arr" and c["y"]["t"] == "arr":
+            xa, ya = c["x"]["a"], c["y"]["a"]
+            k = 0
+            while k < min(len(xa), len(ya)) and xa[k] == ya[k]:
+                k += 1
+            if k >= 1 and (len(xa) > k or len(ya) > k or len(xa) == len(ya)):
+                pre = render.value_expr({"t": "arr", "a": xa[:k]})
+                rx = render.value_expr({"t": "arr", "a": xa[k:]})
+                ry = render.value_expr({"t": "arr", "a": ya[k:]})
+                for op, tmpl in OPS.items():
+                    src = f"local p = {pre}, x = p + {rx}, y = p + {ry}; {tmpl}"
+                    cases.append({"k": "eval", "src": src, "manifest": "single"})
+                    meta.append((c, op))
+                    src = f"local p = {pre} + {rx}, x = p[:{k}] + p[{k}:], y = p[:{k}] + {ry}; {tmpl}"
+                    cases.append({"k": "eval", "src": src, "manifest": "single"})
+                    meta.append((c, op))
     results = run_cases(cases, "c08", timeout_ms=10000)
     for case, (c, op), res_ in zip(cases, meta, results):
         exp = c["exp"][op]
